@@ -10,16 +10,21 @@ mod c04;
 mod c05;
 mod c06;
 mod c07;
+mod c08;
 mod c13;
+mod c18;
 mod c19;
+mod c20;
 mod c14;
 mod c15;
 mod c16;
 mod c17;
 mod client;
 mod cs;
+mod errmsgs;
 mod hist;
 mod real;
+mod scen;
 mod seqs;
 mod sim;
 mod simterm;
@@ -70,7 +75,10 @@ fn main() {
         "C05" => c05::run(&run),
         "C06" => c06::run(&run),
         "C07" => c07::run(&run),
+        "C08" => c08::run(&run),
         "C11" => wf::run_c11(&run),
+        "C18" => c18::run(&run),
+        "C20" => c20::run(&run),
         "C19" => c19::run(&run),
         "C13" => c13::run(&run),
         "C14" => c14::run(&run),
